@@ -450,6 +450,9 @@ def _wrap_top(tr, cls, name):
         return r
 
     def w(self, *a, **k):
+        if name == "send" and tr.cur is not None and tr.cur.get("kind") == "_seed_network_map":
+            # `await self.send(msg)` inside the seeding task: not a task of its own, its events belong to the seeding task's steps
+            return inner(self, *a, **k)
         return Traced(tr, inner(self, *a, **k), name)
     w.__name__ = name
     setattr(cls, name, w)
@@ -483,7 +486,7 @@ def install(tr, gw):
     setp(asyncio, "sleep", logged_sleep)
 
     base = io.AsyncIOClient
-    for name in ("connect", "close", "send", "_receive_loop", "_process_queue"):
+    for name in ("connect", "close", "send", "_receive_loop", "_process_queue", "_seed_network_map"):
         old = _wrap_top(tr, base, name)
         undo.append((base, name, old))
         if name == "close":
@@ -817,6 +820,39 @@ def labelise(blocks):
                     del close_phase[tid]
             else:
                 raise Unlabelled(f"close block {evs} {end}")
+        elif k == "_seed_network_map":
+            # sleep 2 s, send, sleep 2 s, send, sleep 2 s, send; the sends run inside this task (see _wrap_top)
+            if how.startswith("throw"):
+                raise Unlabelled("seeding task cancelled")
+            if _has(evs, "enter", "_seed_network_map"):
+                if end != "susp" or _has(evs, "enter", "send"):
+                    raise Unlabelled("seeding task did not start with a sleep")
+                add("ASeedStart", snap)
+                continue
+            faulted = _has(evs, "enter", "_update_state") or _has(evs, "spawn", "connect")
+            if _scb_resumed(evs):
+                if not _has(evs, "spawn", "connect"):
+                    raise Unlabelled("seeding send: fault handler resumed after the status callback but scheduled no connect()")
+                head, o = "ASeedCbDone", None
+            else:
+                head = "ASeedTimer" if (evs and evs[0][0] == "slept" and evs[0][1] == 2) else "ASeedDrainDone"
+                if head == "ASeedTimer" and not _has(evs, "enter", "send"):
+                    raise Unlabelled("seeding task woke up without calling send()")
+                if faulted:
+                    if _cb_of(evs) != "CbSusp" and not _has(evs, "spawn", "connect"):
+                        raise Unlabelled("seeding send: fault handler reported DISCONNECTED but scheduled no connect()")
+                    o = f"(SFault {_cb_of(evs)})"
+                elif _has(evs, "exit", "send"):
+                    o = "SReturn"
+                elif end == "susp":
+                    o = "SDrainSusp"
+                else:
+                    raise Unlabelled(f"seeding block {evs} {end}")
+            returned = _has(evs, "exit", "send")
+            if returned and end == "susp" and not any(e[0] == "sleep" and e[1] == 2 for e in evs):
+                raise Unlabelled("seeding task suspended after a send without sleeping")
+            more = "true" if (returned and end == "susp") else "false"
+            add(f"{head} {more}" if o is None else f"{head} {o} {more}", snap)
         else:
             raise Unlabelled(f"block of unknown kind {k}")
     return out
@@ -1098,8 +1134,6 @@ async def _session(spec, tr, gw, obs, loop):
     try:
         if rcb_close_at is not None or scb_close_on is not None:
             raise Unlabelled("oracle-only session: close() called from inside a callback is not a schedule of the LTS")
-        if spec.get("netmap"):
-            raise Unlabelled("oracle-only session: the network-map seeding task is not part of the LTS")
         if spec.get("cbkind") in ("syncraise", "sends"):
             raise Unlabelled("oracle-only session: callback kind outside the LTS (plain function / callback that sends)")
         labels = labelise(tr.blocks)
